@@ -256,6 +256,18 @@ func classifyLog(got, want []Call) string {
 	if len(got) > len(want) {
 		return "extra-slot-calls"
 	}
+	if len(got) == len(want) {
+		ids := true
+		for i := range got {
+			if got[i].ID != want[i].ID {
+				ids = false
+			}
+		}
+		if ids {
+			return "slot-told-wrong-outcome"
+		}
+		return "wrong-slots-called"
+	}
 	return "missing-slot-calls"
 }
 
